@@ -17,6 +17,7 @@ import (
 	"net/netip"
 	"os"
 	"sort"
+	"sync"
 	"testing"
 	"testing/synctest"
 	"time"
@@ -46,6 +47,7 @@ type apStep struct {
 	Ann  []apKey `json:"ann"`
 	Msgs []apMsg `json:"msgs"`
 	End  string  `json:"end,omitempty"`
+	Hold bool    `json:"hold,omitempty"`
 }
 
 type apBehaviour struct {
@@ -57,7 +59,29 @@ type apBehaviour struct {
 
 type apWorld struct {
 	*spWorld
-	ap map[string]bool
+	ap       map[string]bool
+	holdMu   sync.Mutex
+	holdAddr string        // neighbour whose next received message is held in front of its handler
+	holdCh   chan struct{} // closed to let it go
+}
+
+// apYield: hook at the lock-free point between reading a message from a neighbour and handing it to the
+// server's handler ("recv"). A flood with hold=true parks the LAST of its UPDATEs there until the session
+// has been closed / the neighbour removed: "already read, not yet handled" made exact.
+func (w *apWorld) apYield(site string, peerAddr string) {
+	if site != "recv" {
+		return
+	}
+	w.holdMu.Lock()
+	var ch chan struct{}
+	if w.holdAddr == peerAddr {
+		ch = w.holdCh
+		w.holdAddr = ""
+	}
+	w.holdMu.Unlock()
+	if ch != nil {
+		<-ch
+	}
 }
 
 func apKeys(l []apKey) []apKey {
@@ -159,13 +183,31 @@ func (w *apWorld) apStep(st apStep) {
 		_ = w.peers[st.P].send(w.apUpdate(st.P, st.Wd, st.Ann, st.R))
 	case "Flood":
 		// no quiescence between the messages and the end of the session
-		for _, m := range st.Msgs {
+		var held chan struct{}
+		for i, m := range st.Msgs {
+			if st.Hold && i == len(st.Msgs)-1 {
+				synctest.Wait() // the earlier UPDATEs are through: the gate catches exactly the last one
+				held = make(chan struct{})
+				w.holdMu.Lock()
+				w.holdAddr, w.holdCh = w.peers[st.P].addr.String(), held
+				w.holdMu.Unlock()
+			}
 			_ = w.peers[st.P].send(w.apUpdate(st.P, m.Wd, m.Ann, m.R))
+		}
+		if held != nil {
+			synctest.Wait() // the last UPDATE has been read and waits in front of its handler
 		}
 		if st.End == "DelPeer" {
 			w.apDelPeer(st.P)
 		} else {
 			w.peers[st.P].closeConn()
+		}
+		if held != nil {
+			synctest.Wait()
+			w.holdMu.Lock()
+			w.holdAddr = ""
+			w.holdMu.Unlock()
+			close(held)
 		}
 	case "DelPeer":
 		w.apDelPeer(st.P)
@@ -239,6 +281,8 @@ func apRun(t *testing.T, tr *vpTrace, tid int, b *apBehaviour) {
 		for _, n := range b.ApPeers {
 			w.ap[n] = true
 		}
+		VerifYieldHook = w.apYield
+		defer func() { VerifYieldHook = nil }()
 		w.ss = newSimServer(t, &api.Global{Asn: b.LocalAS})
 		names := make([]string, 0, len(b.Peers))
 		for n, pi := range b.Peers {
@@ -272,6 +316,7 @@ func apRun(t *testing.T, tr *vpTrace, tid int, b *apBehaviour) {
 				row["r"] = st.R
 			case "Flood":
 				row["end"] = st.End
+				row["hold"] = st.Hold
 				ms := []map[string]any{}
 				for _, m := range st.Msgs {
 					ms = append(ms, map[string]any{"wd": apKeys(m.Wd), "ann": apKeys(m.Ann), "r": m.R})
